@@ -218,6 +218,11 @@ void schedule(bool can_run) {
 }
 
 void count_point(Op op, int obj) {
+  // serialisation self-check: exactly the thread the scheduler selected may be executing
+  if (g_running != t_self) {
+    fprintf(stderr, "vf: ENGINE ERROR: thread T%d executes while T%d is scheduled\n", t_self, g_running);
+    _exit(2);
+  }
   Thr &s = me();
   s.last_op = op;
   s.last_obj = obj;
